@@ -70,6 +70,7 @@ func Layer(r *ev.Run) {
 		shapeSession(r, srng, 2000+s)
 	}
 	capsLayer(r, only)
+	metaHistLayer(r, only)
 	if only >= 0 {
 		return
 	}
